@@ -132,12 +132,17 @@ func mapNodes(ns []templang.Node, f func(templang.Node) templang.Node) []templan
 		n.Kids = mapNodes(n.Kids, f)
 		n.Els = mapNodes(n.Els, f)
 		n.Body = mapNodes(n.Body, f)
-		for i := range n.Brs {
-			n.Brs[i].Body = mapNodes(n.Brs[i].Body, f)
+		// fresh slices: the rewritten program must not share (and so modify) the branches of the original
+		brs := make([]templang.Branch, len(n.Brs))
+		for i, b := range n.Brs {
+			brs[i] = templang.Branch{C: b.C, Body: mapNodes(b.Body, f)}
 		}
-		for i := range n.Cases {
-			n.Cases[i].Body = mapNodes(n.Cases[i].Body, f)
+		n.Brs = brs
+		cs := make([]templang.Case, len(n.Cases))
+		for i, c := range n.Cases {
+			cs[i] = templang.Case{Key: c.Key, Body: mapNodes(c.Body, f)}
 		}
+		n.Cases = cs
 		out = append(out, n)
 	}
 	return out
